@@ -18,7 +18,7 @@
      branch is not taken and the first-order listing of all candidates is the answer. *)
 From Coq Require Import ZArith List Bool Lia Arith Permutation Sorted.
 From VL Require Import Prelude.PyDict Model.GetNBest Model.Condorcet Proofs.Dict_proofs Proofs.GetNBest_proofs
-     Proofs.Condorcet_proofs Proofs.Smith_proofs Proofs.CopelandMono_proofs Proofs.Minimax_proofs
+     Proofs.Condorcet_proofs Proofs.Smith_proofs Proofs.CopelandMono_proofs Proofs.SmithCopeland_proofs Proofs.Minimax_proofs
      Proofs.Schulze_proofs Proofs.Kemeny_proofs Proofs.RankedPairs_proofs.
 Import ListNotations.
 Open Scope Z_scope.
@@ -56,7 +56,7 @@ Section DOM.
       intros x [<-|Hx]; [exact Ha|apply Hl1, Hx].
   Qed.
 
-  (* in a best ranking no outsider stands directly... anywhere before the first member: the first member heads it *)
+  (* a best ranking is headed by a member: otherwise moving its first member to the front gains votes *)
   Lemma kemeny_max_head_smith w t : kemeny_max v (w :: t) -> In w D.
   Proof.
     intros (Hp & Hge). destruct (in_dec Pos.eq_dec w D) as [Hw|Hw]; [exact Hw|exfalso].
@@ -304,3 +304,151 @@ Proof.
   apply in_map_iff. exists (x, u). split; [reflexivity|].
   apply (Permutation_in _ (Permutation_sym (sort_desc_perm zle_bool (cscores v)))). exact Hin.
 Qed.
+
+(* ================================================================ a reported tie for the single seat lies in the Smith set too *)
+Section GNB1.
+  Context {V : Type}.
+  Variable leb : V -> V -> bool.
+  Hypothesis leb_total : forall a b, leb a b = true \/ leb b a = true.
+  Hypothesis leb_trans : forall a b c, leb a b = true -> leb b c = true -> leb a c = true.
+
+  (* the members of a tie for the single seat are greatest elements *)
+  Theorem get_n_best_1_tie (votes : list (C * V)) T : get_n_best leb votes 1 = [TieR T] ->
+    forall c, In c T -> exists s, In (c, s) votes /\ forall c' s', In (c', s') votes -> leb s' s = true.
+  Proof.
+    intros Hr c Hc.
+    destruct (get_n_best_spec leb leb_total leb_trans votes 1 (le_n 1)) as [Hsmall Hbig].
+    destruct (Nat.le_gt_cases (length votes) 1) as [Hle|Hgt].
+    - destruct (Hsmall Hle) as (s & _ & _ & Hs). rewrite Hr in Hs. destruct s as [|x s]; simpl in Hs; discriminate.
+    - destruct (Hbig Hgt) as (above & level & below & thr & Hp & _ & Ha & Hl & Hb & Hpos & Heq & Htie).
+      assert (above = []) as -> by (destruct above; [reflexivity|simpl in Hpos; lia]). simpl in *.
+      destruct (Nat.eq_dec (length level) 1) as [E1|E1].
+      + rewrite (Heq E1) in Hr. destruct level as [|x l]; simpl in Hr; discriminate.
+      + rewrite Htie in Hr by lia. simpl in Hr. injection Hr as <-.
+        apply in_map_iff in Hc. destruct Hc as ([c0 s] & Hf & Hin). simpl in Hf. subst c0.
+        exists s. split; [eapply Permutation_in; [exact Hp|apply in_or_app; left; exact Hin]|].
+        rewrite Forall_forall in Hl, Hb. pose proof (Hl _ Hin) as Hs. simpl in Hs.
+        intros c' s' Hin'. apply (Permutation_in _ (Permutation_sym Hp)) in Hin'. apply in_app_or in Hin'.
+        destruct Hin' as [H|H].
+        * pose proof (Hl _ H) as Hs'. simpl in Hs'. exact (eqv_leb_l leb leb_trans s' s thr Hs' Hs).
+        * pose proof (Hb _ H) as Hs'. simpl in Hs'. apply (ltb_leb leb leb_total) in Hs'.
+          unfold GetNBest.eqv in Hs. apply andb_true_iff in Hs. destruct Hs as [_ Hs].
+          exact (leb_trans _ _ _ Hs' Hs).
+  Qed.
+
+  Theorem get_n_best_1_shape (votes : list (C * V)) :
+    get_n_best leb votes 1 = [] \/ (exists c, get_n_best leb votes 1 = [Cand c]) \/ exists T, get_n_best leb votes 1 = [TieR T].
+  Proof.
+    destruct (get_n_best_spec leb leb_total leb_trans votes 1 (le_n 1)) as [Hsmall Hbig].
+    destruct (Nat.le_gt_cases (length votes) 1) as [Hle|Hgt].
+    - destruct (Hsmall Hle) as (s & Hp & _ & Hs). rewrite Hs. apply Permutation_length in Hp.
+      destruct s as [|x [|y s]]; simpl in Hp; [left; reflexivity|right; left; exists (fst x); reflexivity|lia].
+    - destruct (Hbig Hgt) as (above & level & below & thr & Hp & _ & Ha & Hl & Hb & Hpos & Heq & Htie).
+      assert (above = []) as -> by (destruct above; [reflexivity|simpl in Hpos; lia]). simpl in *.
+      destruct (Nat.eq_dec (length level) 1) as [E1|E1].
+      + rewrite (Heq E1). destruct level as [|x [|y l]]; simpl in E1; try lia. right. left. exists (fst x). reflexivity.
+      + rewrite Htie by lia. right. right. eexists. reflexivity.
+  Qed.
+
+  (* a plain entry of the result is a key of the input *)
+  Lemma get_n_best_cand_key (votes : list (C * V)) n c : In (Cand c) (get_n_best leb votes n) -> In c (map fst votes).
+  Proof.
+    assert (Hs : forall k, In (Cand c) (map (fun it : C * V => Cand (fst it)) (firstn k (sort_desc leb votes))) -> In c (map fst votes)).
+    { intros k H. apply in_map_iff in H. destruct H as (it & Hf & Hin). injection Hf as <-.
+      apply in_map. apply (Permutation_in _ (sort_desc_perm leb votes)). revert Hin. generalize (sort_desc leb votes).
+      induction k as [|k IH]; intros [|y l]; simpl; try tauto. intros [H|H]; [left; exact H|right; apply IH, H]. }
+    unfold get_n_best. intros H.
+    destruct (Nat.ltb n (length (sort_desc leb votes))).
+    2:{ apply (Hs (length (sort_desc leb votes))). rewrite firstn_all. exact H. }
+    destruct (nth_error (sort_desc leb votes) (n - 1)) as [[c1 thr]|]; [|destruct H].
+    destruct (nth_error (sort_desc leb votes) n) as [[c2 nxt]|]; [|destruct H].
+    destruct (GetNBest.eqv leb nxt thr); [|exact (Hs _ H)].
+    apply in_app_or in H. destruct H as [H|H]; [exact (Hs _ H)|]. apply repeat_spec in H. discriminate.
+  Qed.
+End GNB1.
+
+(* the candidates standing in the first place of a result: the plain winner or the members of the tie *)
+Definition first_place (r : list (res C)) : list C :=
+  match r with Cand c :: _ => [c] | TieR l :: _ => l | [] => [] end.
+
+Section TIES.
+  Variable v : pvotes.
+  Hypothesis Hnd : NoDup (map fst v).
+  Hypothesis Hnn : forall p n, In (p, n) v -> 0 <= n.
+  Hypothesis H2 : (2 <= length (candidates v))%nat.
+  Notation cs := (candidates v).
+  Notation D := (smith_schwartz v true).
+
+  Theorem schulze_first_in_smith order : incl (first_place (schulze v order 1)) D.
+  Proof.
+    pose proof (schulze_in_smith v Hnd Hnn H2 order) as Hsole.
+    rewrite schulze_unfold in *. fold (sscores v order) in *.
+    destruct (get_n_best_1_shape zle_bool zle_total zle_trans (sscores v order)) as [E|[(c & E)|(T & E)]]; rewrite E; simpl.
+    - intros x [].
+    - intros x [<-|[]]. exact (Hsole c E).
+    - intros c Hc. destruct (get_n_best_1_tie zle_bool zle_total zle_trans (sscores v order) T E c Hc) as (s & Hin & Hmax).
+      destruct (sscores_facts v Hnd Hnn order) as (Sn & Sk & Sv).
+      assert (Hcc : In c cs) by (apply Sk; apply in_map_iff; exists (c, s); split; [reflexivity|exact Hin]).
+      destruct (in_dec Pos.eq_dec c D) as [Hd|Hd]; [exact Hd|exfalso].
+      destruct (D_member v H2) as (a & HaD & Hac).
+      assert (Hka : In a (map fst (sscores v order))) by (apply Sk, Hac).
+      apply in_map_iff in Hka. destruct Hka as ([a' sa] & Hf & Hina). simpl in Hf. subst a'.
+      pose proof (Hmax a sa Hina) as Hle. unfold zle_bool in Hle. apply Z.leb_le in Hle.
+      rewrite (Sv a sa Hina), (Sv c s Hin) in Hle. pose proof (path_wins_gap v Hnd Hnn H2 order a c HaD Hcc Hd). lia.
+  Qed.
+
+  (* Copeland: a first-order tie for the seat lies in the Smith set ... *)
+  Lemma copeland_tie_in_smith T : get_n_best zle_bool (cscores v) 1 = [TieR T] -> incl T D.
+  Proof.
+    intros E c Hc. destruct (get_n_best_1_tie zle_bool zle_total zle_trans (cscores v) T E c Hc) as (s & Hin & Hmax).
+    destruct (cscores_facts v Hnd Hnn) as (Sn & Sv & Sc). destruct (Sv c s Hin) as [Hs Hcc].
+    destruct (in_dec Pos.eq_dec c D) as [Hd|Hd]; [exact Hd|exfalso].
+    destruct (D_member v H2) as (a & HaD & Hac).
+    assert (Hka : In a (map fst (cscores v))) by (apply Sc, Hac).
+    apply in_map_iff in Hka. destruct Hka as ([a' sa] & Hf & Hina). simpl in Hf. subst a'.
+    destruct (Sv a sa Hina) as [Hsa _].
+    pose proof (Hmax a sa Hina) as Hle. unfold zle_bool in Hle. apply Z.leb_le in Hle.
+    pose proof (SmithCopeland_proofs.strict_gap v Hnd Hnn H2 D (D_dom v H2) a c HaD Hac Hcc Hd). lia.
+  Qed.
+
+  (* ... and the second-order scores are kept for the tied candidates only *)
+  Definition so_dict (tied : list C) : list (C * Z) :=
+    fold_left (fun d (p : pair) => if cmem (fst p) tied then dadd d (fst p) (dget_or (cscores v) (snd p) 0) else d)
+      (pairwise_wins v false)
+      (flat_map (fun cs : C * Z => if cmem (fst cs) tied then [(fst cs, 0)] else []) (cscores v)).
+
+  Lemma copeland2_tie T : get_n_best zle_bool (cscores v) 1 = [TieR T] ->
+    copeland true v 1 = get_n_best zle_bool (so_dict (T ++ [])) 1.
+  Proof. intros H. unfold copeland. cbv zeta. fold seed. fold (cscores v). rewrite H. reflexivity. Qed.
+
+  Lemma so_dict_keys tied k : In k (map fst (so_dict tied)) -> In k tied.
+  Proof.
+    unfold so_dict.
+    assert (H0 : forall k, In k (map fst (flat_map (fun cs : C * Z => if cmem (fst cs) tied then [(fst cs, 0)] else []) (cscores v))) -> In k tied).
+    { intros k' H. apply in_map_iff in H. destruct H as ([k0 z] & Hf & H). simpl in Hf. subst k0.
+      apply in_flat_map in H. destruct H as (cs0 & _ & H). destruct (cmem (fst cs0) tied) eqn:E; [|destruct H].
+      destruct H as [H|[]]. injection H as <- _. apply Threshold_proofs.cmem_In, E. }
+    revert H0. generalize (flat_map (fun cs : C * Z => if cmem (fst cs) tied then [(fst cs, 0)] else []) (cscores v)).
+    generalize (pairwise_wins v false). intros ws. induction ws as [|p ws IH]; intros d Hd; simpl fold_left; [apply Hd|].
+    apply IH. destruct (cmem (fst p) tied) eqn:E; [|exact Hd]. intros k' H. unfold dadd in H. apply dset_keys_in in H.
+    destruct H as [->|H]; [apply Threshold_proofs.cmem_In, E|apply Hd, H].
+  Qed.
+
+  Theorem copeland_first_in_smith so : incl (first_place (copeland so v 1)) D.
+  Proof.
+    destruct (get_n_best_1_shape zle_bool zle_total zle_trans (cscores v)) as [E|[(c & E)|(T & E)]].
+    - rewrite copeland_no_tie; rewrite E; [|reflexivity]. intros x [].
+    - rewrite copeland_no_tie; rewrite E; [|reflexivity]. intros x [<-|[]]. exact (SmithCopeland_proofs.copeland_in_smith v c Hnd Hnn H2 E).
+    - pose proof (copeland_tie_in_smith T E) as HT. destruct so.
+      + rewrite (copeland2_tie T E).
+        assert (Hk : forall k, In k (map fst (so_dict (T ++ []))) -> In k D).
+        { intros k Hk. apply so_dict_keys in Hk. rewrite app_nil_r in Hk. apply HT, Hk. }
+        destruct (get_n_best_1_shape zle_bool zle_total zle_trans (so_dict (T ++ []))) as [E'|[(c & E')|(T' & E')]]; rewrite E'; simpl.
+        * intros x [].
+        * intros x [<-|[]]. apply Hk. apply (get_n_best_cand_key zle_bool (so_dict (T ++ [])) 1). rewrite E'. left. reflexivity.
+        * intros x Hx. apply Hk.
+          destruct (get_n_best_tie_members zle_bool zle_trans (so_dict (T ++ [])) 1 T') as (thr & -> & _); [rewrite E'; left; reflexivity|].
+          apply in_map_iff in Hx. destruct Hx as (it & <- & Hit). apply filter_In in Hit. apply in_map, Hit.
+      + rewrite copeland_raw_is_first_order, E. exact HT.
+  Qed.
+End TIES.
